@@ -75,6 +75,7 @@ func main() {
 	runNumbers(o, res, r.Fork("numbers"))
 	runJSON(o, res, r.Fork("json"))
 	runDates(o, res, r.Fork("dates"))
+	runStored(o, res, r.Fork("stored"))
 
 	res.Write(o)
 }
